@@ -81,7 +81,8 @@ def gen_matrix(t, label):
 def gen_string(t, font):
     n = t.rint(1, 5, "str.len")
     if font.bpc == 2:
-        return b"".join(t.pick([28, 30, 31, 32, 33, 36, 40, 300], "str.cid").to_bytes(2, "big") for _ in range(n))
+        pool2 = [28, 30, 31, 32, 33, 36, 40, 300] + ([65535, 65534, 65000] if getattr(font, "top", False) else [])
+        return b"".join(t.pick(pool2, "str.cid").to_bytes(2, "big") for _ in range(n))
     pool = b"ABCDE A" if font.kind != "type3" else b"ABCDE"
     if font.kind == "type1" and font.first <= 32:
         pool = b"ABC  DE"
@@ -241,10 +242,24 @@ def build_document(t, fonts, forms, pieces, origin):
         objects[nxt[0]] = v
         return Ref(nxt[0], 0)
 
+    def indirect_numbers(lst):
+        return [indirect_numbers(x) if isinstance(x, list) else (alloc(x) if isinstance(x, int) and t.coin(20, 100, "font.wref") else x) for x in lst]
+
     def font_res(fs):
         d = {}
         for name, f in fs.items():
-            d[name] = alloc(f.obj) if t.coin(70, 100, "font.indirect") else f.obj
+            obj = f.obj
+            if t.coin(20, 100, "font.wrefs"):
+                # some numbers of the width tables are indirect objects (any value of an array may be)
+                import copy
+
+                obj = copy.deepcopy(obj)
+                if b"Widths" in obj:
+                    obj[b"Widths"] = indirect_numbers(obj[b"Widths"])
+                for dsc in obj.get(b"DescendantFonts", []):
+                    if isinstance(dsc, dict) and b"W" in dsc:
+                        dsc[b"W"] = indirect_numbers(dsc[b"W"])
+            d[name] = alloc(obj) if t.coin(70, 100, "font.indirect") else obj
         return d
 
     made = {}
